@@ -8,7 +8,7 @@
         deserializer/tuples.rs, adt/{mod,serializer,deserializer}.rs, evolution.rs, state.rs,
         features/{uuid,bigdecimal,chrono}.rs, desert_macro/src/lib.rs *)
 From Coq Require Import NArith ZArith List Bool.
-From Desert Require Import Outcome IO Types Calendar.
+From Desert Require Import Outcome IO Types Calendar BigDec.
 Import ListNotations.
 Open Scope N_scope.
 
@@ -240,6 +240,8 @@ Definition enc_prim (p : prim) (v : val) (st : strtab) : enc_result :=
       '(b, st) <- of_opt (enc_ndt dt) st ;;
       '(b2, st) <- enc_string nm st ;;
       Ok (b ++ 1 :: b2, st)
+  (* BigDecimal: the String of to_string() (features/bigdecimal.rs) *)
+  | PBigDecimal, VNode 0 [VZ i; VZ sc] => enc_string (bd_render i sc) st
   | PVarU32, VN n => Ok (write_var_u32 n, st)
   | PVarI32, VZ z => Ok (write_var_i32 z, st)
   | _, _ => Err EIllTyped
@@ -640,6 +642,16 @@ Section Dec.
     | PBigInt =>
         '(v, s) <- dec_bytes s ;;
         match v with VB bs => Ok (VZ (bigint_of_be bs), s) | _ => Err EIllTyped end
+    (* BigDecimal: a String, then str::parse; the model keeps the representative bd_norm *)
+    | PBigDecimal =>
+        '(v, s) <- dec_string s ;;
+        match v with
+        | VB bs => match bd_parse bs with
+                   | Some p => Ok (VNode 0 [VZ (fst (bd_norm p)); VZ (snd (bd_norm p))], s)
+                   | None => Err EDeserializationFailure
+                   end
+        | _ => Err EIllTyped
+        end
     | PWeekday => dec_small 1 7 s
     | PMonth => dec_small 1 12 s
     | PFixedOffset => dec_offset s
@@ -670,7 +682,6 @@ Section Dec.
         Ok (VNode 0 [dt; tz], s)
     | PVarU32 => '(n, s) <- read_var_u32 rd s ;; Ok (VN n, s)
     | PVarI32 => '(z, s) <- read_var_i32 rd s ;; Ok (VZ z, s)
-    | _ => Err EIllTyped
     end.
 
   (* --- sequences: deserializer/mod.rs:375-434 --- *)
